@@ -194,7 +194,7 @@ theorem hitPRF_self {α : Type} (feas : α → α → Bool) (xs : List α) (beta
     (h : ∀ x ∈ xs, feas x x = true) : hitPRF feas xs xs beta = (1, 1, 1) := by
   unfold hitPRF prf
   have hl : (0 : Rat) < xs.length := by exact_mod_cast List.length_pos_iff.2 hne
-  simp only [List.isEmpty_iff, hne, Bool.or_self, Bool.false_eq_true, if_false, hitCount_self feas xs h,
+  simp only [List.isEmpty_iff, hne, Bool.or_self, if_false, hitCount_self feas xs h,
     div_self hl.ne', fMeasure_one]
 
 /-- exchanging the roles exchanges precision and recall and keeps F at beta = 1 -/
@@ -207,7 +207,7 @@ theorem hitPRF_swap {α β : Type} (feas : α → β → Bool) (ref : List α) (
   · have h' : (est.isEmpty || ref.isEmpty) = true := by rw [Bool.or_comm]; exact h
     simp [h, h']
   · have h' : ¬ (est.isEmpty || ref.isEmpty) = true := by rw [Bool.or_comm]; exact h
-    simp only [h, h', if_false, prf, hitCount_swap]
+    simp only [h, h', prf, hitCount_swap]
     exact ⟨rfl, rfl, fMeasure_symm _ _⟩
 
 end Mir
